@@ -1,25 +1,45 @@
 // sim.cpp — interpreter of operation histories against the REAL library (built from /repo's working tree),
 // under the virtual OS of vos.cpp. Reads cases on stdin (same format as the model runner), runs each in a
 // forked child, prints the trace. Counterpart of coq/theories/Sim.v: every op code means the same thing there.
-#include "vos.h"
-#include "sockpuppet/address.h"
-#include "sockpuppet/socket.h"
-#include "sockpuppet/socket_buffered.h"
-#include "sockpuppet/socket_async.h"
-
+#include <chrono>
 #include <cstdio>
 #include <cstring>
+#include <deque>
+#include <functional>
 #include <future>
 #include <iostream>
 #include <map>
 #include <memory>
+#include <mutex>
 #include <optional>
+#include <queue>
 #include <sstream>
+#include <stack>
 #include <string>
 #include <sys/wait.h>
 #include <system_error>
 #include <unistd.h>
+#include <variant>
 #include <vector>
+#include <atomic>
+#include <poll.h>
+#include <netdb.h>
+#include <csignal>
+
+// the harness translation unit looks into the objects (pool occupancy, driver lists); the library itself is
+// compiled unmodified
+#define private public
+#include "sockpuppet/address.h"
+#include "sockpuppet/socket.h"
+#include "sockpuppet/socket_buffered.h"
+#include "sockpuppet/socket_async.h"
+#include "driver_impl.h"
+#include "socket_async_impl.h"
+#include "socket_buffered_impl.h"
+#include "todo_impl.h"
+#undef private
+
+#include "vos.h"
 
 using namespace sockpuppet;
 using vos::S;
@@ -28,16 +48,19 @@ namespace {
 
 struct Op { int code; std::vector<long long> a; long long arg(size_t i) const { return i < a.size() ? a[i] : 0; } };
 struct Case { std::string id; std::vector<Op> ops; std::deque<vos::Ev> script; std::map<long long, long long> faults; };
+using V = std::vector<long long>;
+
+constexpr long long EPOCH_NS = 1000000000000ll;   // see vos.cpp clock_gettime
 
 // ---- exception -> code (same numbering as Base.exn_code) ----------------------------------------
-std::vector<long long> exn_code(std::exception const &e)
+V exn_code(std::exception const &e)
 {
   std::string what = e.what();
   if(auto *se = dynamic_cast<std::system_error const *>(&e)) {
     if(std::string(se->code().category().name()) == "GetAddrInfoError") return {2, se->code().value()};
     return {1, se->code().value()};
   }
-  if(auto *fe = dynamic_cast<std::future_error const *>(&e)) { (void)fe; return {8, 0}; }
+  if(dynamic_cast<std::future_error const *>(&e)) return {8, 0};
   if(dynamic_cast<std::invalid_argument const *>(&e)) return {6, 0};
   if(dynamic_cast<std::out_of_range const *>(&e)) return {7, 0};
   if(dynamic_cast<std::logic_error const *>(&e)) {
@@ -50,6 +73,7 @@ std::vector<long long> exn_code(std::exception const &e)
     else if(what == "invalid handler") site = 6;
     else if(what == "unexpected receive buffer size") site = 7;
     else if(what == "returned invalid buffer") site = 20;
+    else if(what == "scenario") site = 99;
     return {4, site};
   }
   if(dynamic_cast<std::runtime_error const *>(&e)) {
@@ -69,14 +93,37 @@ struct Sock {
   std::unique_ptr<Acceptor> acc;
   std::unique_ptr<SocketTcpBuffered> tcpb;
   std::unique_ptr<SocketUdpBuffered> udpb;
+  std::unique_ptr<SocketTcpAsync> tcpa;
+  std::unique_ptr<SocketUdpAsync> udpa;
+  std::unique_ptr<AcceptorAsync> acca;
   int fd = -1;
   uint64_t user_in = 0;     // bytes / datagrams the user has obtained so far
+  long long h1 = 0, h2 = 0;
+  bool alive() const { return tcp || udp || acc || tcpb || udpb || tcpa || udpa || acca; }
+  BufferPool *rxpool() const {
+    if(tcpb) return tcpb->impl->pool.get();
+    if(udpb) return udpb->impl->pool.get();
+    if(tcpa) return tcpa->impl->buff->pool.get();
+    if(udpa) return udpa->impl->buff->pool.get();
+    return nullptr;
+  }
 };
 
 std::map<long long, std::unique_ptr<BufferPool>> pools;
+std::vector<long long> pool_order;
 std::map<long long, Sock> socks;
+std::vector<long long> sock_order;
 std::vector<BufferPtr> held;              // by name
 std::vector<void const *> names;          // buffer address by name (first appearance)
+std::unique_ptr<Driver> driver;
+std::map<long long, std::vector<Op>> blocks;
+std::map<long long, std::unique_ptr<ToDo>> todos;
+std::map<void const *, long long> todo_ids;
+struct Fut { std::future<void> f; int reported = 0; };
+std::vector<Fut> futs;
+BufferPtr *cur_arg = nullptr;
+struct Accepted { SocketTcp *sock; long long peer; };
+std::optional<Accepted> cur_acc;
 
 long long name_of(BufferPool::Buffer *b)
 {
@@ -89,15 +136,15 @@ long long name_of(BufferPool::Buffer *b)
 Address sym_addr(long long k) { return Address("127.0.0.1:" + std::to_string(vos::PORT_BASE_SYM + k)); }
 long long sym_of(Address const &a) { return static_cast<long long>(a.Port()) - vos::PORT_BASE_SYM; }
 
-void ret_ok(int opc, std::vector<long long> vals)
+void ret_ok(int opc, V vals)
 {
-  std::vector<long long> a{opc, 1};
+  V a{opc, 1};
   a.insert(a.end(), vals.begin(), vals.end());
   vos::logv(20, a);
 }
 void ret_exn(int opc, std::exception const &e)
 {
-  std::vector<long long> a{opc, 0};
+  V a{opc, 0};
   auto c = exn_code(e);
   a.insert(a.end(), c.begin(), c.end());
   vos::logv(20, a);
@@ -123,13 +170,109 @@ template<typename Fn> void api(int opc, Fn &&fn)
 
 int last_fd_created() { return S.nextfd - 1; }
 
-void run_op(Op const &op)
+void run_block(long long b);
+
+void add_sock(long long k, Sock &&s)
 {
-  using V = std::vector<long long>;
+  if(!socks.count(k)) sock_order.push_back(k);
+  socks[k] = std::move(s);
+}
+
+Sock &need_sock(long long k, int kind)
+{
+  auto it = socks.find(k);
+  if(it == socks.end()) bad_case(102);
+  if(!it->second.alive() || (kind && it->second.kind != kind)) bad_case(103);
+  return it->second;
+}
+
+// ---- handlers given to the library (capture only the key; copy it first: the socket, and with it the handler
+// object itself, may be destroyed from inside a disconnect handler) ---------------------------------------
+ReceiveHandler make_receive(long long key)
+{
+  return [key](BufferPtr buf) {
+    long long k = key;
+    Sock &s = socks[k];
+    if(buf->empty() || !vos::check(2ull * s.fd + 1, s.user_in, buf->data(), buf->size())) vos::anomaly(10, k, static_cast<long long>(buf->size()));
+    s.user_in += buf->size();
+    auto n = name_of(buf.get());
+    vos::log(21, {1, k, n, static_cast<long long>(buf->size())});
+    cur_arg = &buf;
+    struct Reset { ~Reset() { cur_arg = nullptr; } } reset;
+    run_block(s.h1);
+  };
+}
+DisconnectHandler make_disconnect(long long key)
+{
+  return [key](Address addr, char const *) {
+    long long k = key;
+    long long h2 = socks[k].h2;
+    vos::log(21, {2, k, sym_of(addr)});
+    run_block(h2);
+  };
+}
+ReceiveFromHandler make_receive_from(long long key)
+{
+  return [key](BufferPtr buf, Address from) {
+    long long k = key;
+    Sock &s = socks[k];
+    if(!vos::check((2ull << 20) + s.fd, (s.user_in << 20), buf->data(), buf->size())) vos::anomaly(10, k, static_cast<long long>(buf->size()));
+    s.user_in += 1;
+    auto n = name_of(buf.get());
+    vos::log(21, {4, k, n, static_cast<long long>(buf->size()), sym_of(from)});
+    cur_arg = &buf;
+    struct Reset { ~Reset() { cur_arg = nullptr; } } reset;
+    run_block(s.h1);
+  };
+}
+ConnectHandler make_connect(long long key)
+{
+  return [key](SocketTcp sock, Address from) {
+    long long k = key;
+    long long h1 = socks[k].h1;
+    long long peer = sym_of(from);
+    vos::log(21, {3, k, peer});
+    cur_acc = Accepted{&sock, peer};
+    struct Reset { ~Reset() { cur_acc.reset(); } } reset;
+    run_block(h1);
+  };
+}
+
+void make_buffered(Sock &s, long long count, long long size)
+{
+  if(s.kind == 1) {
+    auto tmp = std::move(s.tcp);
+    s.tcpb = std::make_unique<SocketTcpBuffered>(std::move(*tmp), static_cast<size_t>(count), static_cast<size_t>(size));
+  } else {
+    auto tmp = std::move(s.udp);
+    s.udpb = std::make_unique<SocketUdpBuffered>(std::move(*tmp), static_cast<size_t>(count), static_cast<size_t>(size));
+  }
+}
+
+void make_async(long long k, Sock &s, long long h1, long long h2)
+{
+  s.h1 = h1; s.h2 = h2;
+  if(s.kind == 1) {
+    auto tmp = std::move(s.tcpb);
+    S.async_fds.insert(s.fd);
+    s.tcpa = std::make_unique<SocketTcpAsync>(std::move(*tmp), *driver, make_receive(k), make_disconnect(k));
+  } else if(s.kind == 2) {
+    auto tmp = std::move(s.udpb);
+    S.async_fds.insert(s.fd);
+    s.udpa = std::make_unique<SocketUdpAsync>(std::move(*tmp), *driver, make_receive_from(k));
+  } else {
+    auto tmp = std::move(s.acc);
+    s.acca = std::make_unique<AcceptorAsync>(std::move(*tmp), *driver, make_connect(k));
+  }
+}
+
+void run_simple_op(Op const &op)
+{
   int const opc = op.code;
-  long long a0 = op.arg(0), a1 = op.arg(1), a2 = op.arg(2), a3 = op.arg(3);
+  long long a0 = op.arg(0), a1 = op.arg(1), a2 = op.arg(2), a3 = op.arg(3), a4 = op.arg(4);
   switch(opc) {
   case 10: // POOL_NEW p n reserve
+    if(!pools.count(a0)) pool_order.push_back(a0);
     pools[a0] = std::make_unique<BufferPool>(static_cast<size_t>(a1), static_cast<size_t>(a2));
     ret_ok(opc, {});
     break;
@@ -150,8 +293,7 @@ void run_op(Op const &op)
     break;
   case 13: // BUF_RESIZE name n
     api(opc, [&]() -> V {
-      if(a0 < 0 || static_cast<size_t>(a0) >= held.size()) bad_case(101);
-      if(held[a0]) held[a0]->resize(static_cast<size_t>(a1));
+      if(a0 >= 0 && static_cast<size_t>(a0) < held.size() && held[a0]) held[a0]->resize(static_cast<size_t>(a1));
       return {};
     });
     break;
@@ -160,7 +302,7 @@ void run_op(Op const &op)
       Sock s; s.kind = 1;
       s.tcp = std::make_unique<SocketTcp>(sym_addr(100 + a0));
       s.fd = last_fd_created();
-      socks[a0] = std::move(s);
+      add_sock(a0, std::move(s));
       return {};
     });
     break;
@@ -169,7 +311,7 @@ void run_op(Op const &op)
       Sock s; s.kind = 2;
       s.udp = std::make_unique<SocketUdp>(sym_addr(200 + a0));
       s.fd = last_fd_created();
-      socks[a0] = std::move(s);
+      add_sock(a0, std::move(s));
       return {};
     });
     break;
@@ -178,14 +320,13 @@ void run_op(Op const &op)
       Sock s; s.kind = 3;
       s.acc = std::make_unique<Acceptor>(sym_addr(300 + a0));
       s.fd = last_fd_created();
-      socks[a0] = std::move(s);
+      add_sock(a0, std::move(s));
       return {};
     });
     break;
   case 23: { // TCP_SEND s size timeout
-    auto it = socks.find(a0);
-    if(it == socks.end() || it->second.kind != 1 || (!it->second.tcp && !it->second.tcpb)) bad_case(103);
-    auto &s = it->second;
+    auto &s = need_sock(a0, 1);
+    if(!s.tcp && !s.tcpb) bad_case(103);
     std::string data(static_cast<size_t>(a1), '\0');
     vos::fill(2ull * s.fd, S.out_pos[s.fd], data.data(), data.size());
     api(opc, [&]() -> V {
@@ -196,9 +337,8 @@ void run_op(Op const &op)
     break;
   }
   case 24: { // TCP_RECV s size timeout
-    auto it = socks.find(a0);
-    if(it == socks.end() || it->second.kind != 1 || !it->second.tcp) bad_case(103);
-    auto &s = it->second;
+    auto &s = need_sock(a0, 1);
+    if(!s.tcp) bad_case(103);
     std::string data(static_cast<size_t>(a1) + 8, '\xAA');
     api(opc, [&]() -> V {
       auto r = s.tcp->Receive(data.data(), static_cast<size_t>(a1), Duration(a2));
@@ -212,9 +352,8 @@ void run_op(Op const &op)
     break;
   }
   case 25: { // UDP_SENDTO s size dst timeout
-    auto it = socks.find(a0);
-    if(it == socks.end() || it->second.kind != 2 || (!it->second.udp && !it->second.udpb)) bad_case(103);
-    auto &s = it->second;
+    auto &s = need_sock(a0, 2);
+    if(!s.udp && !s.udpb) bad_case(103);
     std::string data(static_cast<size_t>(a1), '\0');
     vos::fill((1ull << 20) + s.fd, (S.dgram_out[s.fd] << 20), data.data(), data.size());
     auto dst = sym_addr(a2);
@@ -226,9 +365,8 @@ void run_op(Op const &op)
     break;
   }
   case 26: { // UDP_RECVFROM s size timeout
-    auto it = socks.find(a0);
-    if(it == socks.end() || it->second.kind != 2 || !it->second.udp) bad_case(103);
-    auto &s = it->second;
+    auto &s = need_sock(a0, 2);
+    if(!s.udp) bad_case(103);
     std::string data(static_cast<size_t>(a1) + 8, '\xAA');
     api(opc, [&]() -> V {
       auto r = s.udp->ReceiveFrom(data.data(), static_cast<size_t>(a1), Duration(a2));
@@ -241,16 +379,15 @@ void run_op(Op const &op)
     break;
   }
   case 27: { // ACC_LISTEN s timeout news
-    auto it = socks.find(a0);
-    if(it == socks.end() || it->second.kind != 3 || !it->second.acc) bad_case(103);
-    auto &s = it->second;
+    auto &s = need_sock(a0, 3);
+    if(!s.acc) bad_case(103);
     api(opc, [&]() -> V {
       auto r = s.acc->Listen(Duration(a1));
       if(!r) return {0};
       Sock c; c.kind = 1;
       c.tcp = std::make_unique<SocketTcp>(std::move(r->first));
       c.fd = last_fd_created();
-      socks[a2] = std::move(c);
+      add_sock(a2, std::move(c));
       return {1, sym_of(r->second)};
     });
     break;
@@ -258,31 +395,27 @@ void run_op(Op const &op)
   case 28: { // DESTROY s
     auto it = socks.find(a0);
     if(it == socks.end()) bad_case(102);
-    auto &s = it->second;
-    s.tcp.reset(); s.udp.reset(); s.acc.reset(); s.tcpb.reset(); s.udpb.reset();
-    ret_ok(opc, {});
+    api(opc, [&]() -> V {
+      auto &s = it->second;
+      s.tcp.reset(); s.udp.reset(); s.acc.reset(); s.tcpb.reset(); s.udpb.reset();
+      s.tcpa.reset(); s.udpa.reset(); s.acca.reset();
+      return {};
+    });
     break;
   }
   case 30: { // BUFFERED_NEW s count size
     auto it = socks.find(a0);
-    if(it == socks.end() || (!it->second.tcp && !it->second.udp)) bad_case(104);
-    auto &s = it->second;
+    if(it == socks.end()) bad_case(102);
+    if(!it->second.tcp && !it->second.udp) bad_case(104);
     api(opc, [&]() -> V {
-      if(s.kind == 1) {
-        auto tmp = std::move(s.tcp);
-        s.tcpb = std::make_unique<SocketTcpBuffered>(std::move(*tmp), static_cast<size_t>(a1), static_cast<size_t>(a2));
-      } else {
-        auto tmp = std::move(s.udp);
-        s.udpb = std::make_unique<SocketUdpBuffered>(std::move(*tmp), static_cast<size_t>(a1), static_cast<size_t>(a2));
-      }
+      make_buffered(it->second, a1, a2);
       return {a2 ? a2 : vos::RCVBUF_DEFAULT};
     });
     break;
   }
   case 32: { // BUF_RECV s timeout
-    auto it = socks.find(a0);
-    if(it == socks.end() || !it->second.tcpb) bad_case(103);
-    auto &s = it->second;
+    auto &s = need_sock(a0, 1);
+    if(!s.tcpb) bad_case(103);
     api(opc, [&]() -> V {
       auto r = s.tcpb->Receive(Duration(a1));
       if(!r) return {-1};
@@ -297,9 +430,8 @@ void run_op(Op const &op)
     break;
   }
   case 33: { // BUF_RECVFROM s timeout
-    auto it = socks.find(a0);
-    if(it == socks.end() || !it->second.udpb) bad_case(103);
-    auto &s = it->second;
+    auto &s = need_sock(a0, 2);
+    if(!s.udpb) bad_case(103);
     api(opc, [&]() -> V {
       auto r = s.udpb->ReceiveFrom(Duration(a1));
       if(!r) return {-1};
@@ -313,9 +445,183 @@ void run_op(Op const &op)
     });
     break;
   }
+  case 43: // STOP
+    if(!driver) bad_case(130);
+    api(opc, [&]() -> V { driver->Stop(); return {}; });
+    break;
+  case 50: // TODO_NEW id kind value block
+    if(!driver) bad_case(130);
+    api(opc, [&]() -> V {
+      long long id = a0, blk = a3;
+      auto task = [id, blk]() { long long i = id, b = blk; vos::log(21, {5, i}); run_block(b); };
+      std::unique_ptr<ToDo> t;
+      if(a1 == 0) t = std::make_unique<ToDo>(*driver, task);
+      else if(a1 == 1) t = std::make_unique<ToDo>(*driver, task, TimePoint(std::chrono::nanoseconds(a2 + EPOCH_NS)));
+      else t = std::make_unique<ToDo>(*driver, task, Duration(a2));
+      todo_ids[t->impl.get()] = id;
+      todos[id] = std::move(t);
+      return {};
+    });
+    break;
+  case 51: { // TODO_SHIFT id kind value
+    auto it = todos.find(a0);
+    if(it == todos.end()) bad_case(120);
+    if(!it->second) bad_case(121);
+    api(opc, [&]() -> V {
+      if(a1 == 1) it->second->Shift(TimePoint(std::chrono::nanoseconds(a2 + EPOCH_NS)));
+      else it->second->Shift(Duration(a2));
+      return {};
+    });
+    break;
+  }
+  case 52: { // TODO_CANCEL id
+    auto it = todos.find(a0);
+    if(it == todos.end()) bad_case(120);
+    if(!it->second) bad_case(121);
+    api(opc, [&]() -> V { it->second->Cancel(); return {}; });
+    break;
+  }
+  case 53: { // TODO_DROP id
+    auto it = todos.find(a0);
+    if(it == todos.end()) bad_case(120);
+    it->second.reset();
+    ret_ok(opc, {});
+    break;
+  }
+  case 60: { // ASYNC_NEW s h1 h2
+    auto it = socks.find(a0);
+    if(it == socks.end()) bad_case(102);
+    if(!driver) bad_case(130);
+    auto &s = it->second;
+    if(!(s.tcpb || s.udpb || s.acc)) bad_case(105);
+    api(opc, [&]() -> V { make_async(a0, s, a1, a2); return {}; });
+    break;
+  }
+  case 61: case 62: { // ASYNC_SEND s p size / ASYNC_SENDTO s p size dst
+    auto &s = need_sock(a0, opc == 61 ? 1 : 2);
+    if(!(opc == 61 ? !!s.tcpa : !!s.udpa)) bad_case(106);
+    api(opc, [&]() -> V {
+      auto b = pools.at(a1)->Get();
+      (void)name_of(b.get());
+      long long f = static_cast<long long>(futs.size());
+      b->resize(static_cast<size_t>(a2));
+      vos::fill((3ull << 20) + static_cast<uint64_t>(f), 0, b->data(), b->size());
+      S.aq[s.fd].push_back(vos::State::AQ{f, static_cast<size_t>(a2), 0, a3});
+      Fut fu;
+      if(opc == 61) fu.f = s.tcpa->Send(std::move(b));
+      else fu.f = s.udpa->SendTo(std::move(b), sym_addr(a3));
+      futs.push_back(std::move(fu));
+      return {f};
+    });
+    break;
+  }
+  case 63: { // ADOPT news count size h1 h2
+    if(!cur_acc) { ret_ok(opc, {0}); break; }
+    auto acc = *cur_acc;
+    cur_acc.reset();
+    Sock c; c.kind = 1;
+    c.tcp = std::make_unique<SocketTcp>(std::move(*acc.sock));
+    c.fd = c.tcp->impl->fd;
+    add_sock(a0, std::move(c));
+    api(opc, [&]() -> V {
+      auto &s = socks[a0];
+      make_buffered(s, a1, a2);
+      make_async(a0, s, a3, a4);
+      return {1};
+    });
+    break;
+  }
+  case 64: // HOLD
+    if(cur_arg && *cur_arg) {
+      auto n = name_of(cur_arg->get());
+      held[n] = std::move(*cur_arg);
+    }
+    cur_arg = nullptr;
+    ret_ok(opc, {});
+    break;
+  case 95: // THROW kind
+    if(a0 == 1) throw std::system_error(std::error_code(0, std::system_category()), "scenario");
+    throw std::logic_error("scenario");
   default:
     bad_case(100);
   }
+}
+
+void run_block(long long b)
+{
+  auto it = blocks.find(b);
+  if(it == blocks.end()) return;
+  auto ops = it->second; // copy: stable while running
+  for(auto const &op : ops) run_simple_op(op);
+}
+
+void report_state()
+{
+  // futures (polled with the virtual OS switched off: wait_for reads the clock)
+  S.active = false;
+  for(size_t i = 0; i < futs.size(); ++i) {
+    auto &fu = futs[i];
+    int state = fu.reported;
+    V code;
+    if(fu.reported == 0 && fu.f.valid() && fu.f.wait_for(std::chrono::seconds(0)) == std::future_status::ready) {
+      try { fu.f.get(); state = 1; }
+      catch(std::future_error const &) { state = 3; }
+      catch(std::exception const &e) { state = 2; code = exn_code(e); }
+    }
+    if(state != fu.reported) {
+      V a{static_cast<long long>(i), state};
+      a.insert(a.end(), code.begin(), code.end());
+      vos::logv(22, a);
+      fu.reported = state;
+    }
+  }
+  S.active = true;
+  for(auto p : pool_order) vos::log(23, {p, static_cast<long long>(pools[p]->m_busy.size())});
+  for(auto k : sock_order) {
+    auto &s = socks[k];
+    if(auto *pool = s.rxpool()) vos::log(23, {1000 + k, static_cast<long long>(pool->m_busy.size())});
+  }
+  if(driver) {
+    V a;
+    for(auto const &p : driver->impl->pfds) { a.push_back(p.fd); a.push_back(p.events); }
+    vos::logv(24, a);
+    V t;
+    for(auto const &td : driver->impl->todos) {
+      auto it = todo_ids.find(td.get());
+      t.push_back(it == todo_ids.end() ? -1 : it->second);
+      t.push_back(std::chrono::duration_cast<std::chrono::nanoseconds>(td->when.time_since_epoch()).count() - EPOCH_NS);
+    }
+    vos::logv(25, t);
+  }
+}
+
+void run_op(Op const &op)
+{
+  switch(op.code) {
+  case 40: // DRIVER_NEW
+    api(40, [&]() -> V {
+      int first = S.nextfd;
+      driver = std::make_unique<Driver>();
+      S.opaque_fds.insert(first);
+      S.opaque_fds.insert(first + 1);
+      return {};
+    });
+    break;
+  case 41: // STEP timeout
+    if(!driver) bad_case(130);
+    api(41, [&]() -> V { driver->Step(Duration(op.arg(0))); return {}; });
+    break;
+  case 42: // RUN
+    if(!driver) bad_case(130);
+    api(42, [&]() -> V { driver->Run(); return {}; });
+    break;
+  case 44: // DRIVER_DESTROY
+    api(44, [&]() -> V { driver.reset(); return {}; });
+    break;
+  default:
+    run_simple_op(op);
+  }
+  report_state();
 }
 
 void run_case(Case const &c)
@@ -323,13 +629,33 @@ void run_case(Case const &c)
   vos::reset();
   S.script = c.script;
   S.faults = c.faults;
+  // blocks
+  std::vector<Op> top;
+  std::optional<long long> cur;
+  for(auto const &op : c.ops) {
+    if(!cur) {
+      if(op.code == 1) { cur = op.arg(0); blocks[*cur].clear(); }
+      else top.push_back(op);
+    } else {
+      if(op.code == 2) cur.reset();
+      else blocks[*cur].push_back(op);
+    }
+  }
   S.active = true;
-  for(auto const &op : c.ops) run_op(op);
+  for(auto const &op : top) run_op(op);
   S.active = false;
   vos::log(99, {0, 0, static_cast<long long>(S.script.size())});
   fwrite(S.trace.data(), 1, S.trace.size(), stdout);
   fflush(stdout);
   _exit(0); // objects are deliberately not destroyed: destruction is an explicit op
+}
+
+void dump_on_signal(int sig)
+{
+  // best effort: keep what was traced before the crash, then die with the same signal
+  (void)!write(1, S.trace.data(), S.trace.size());
+  signal(sig, SIG_DFL);
+  raise(sig);
 }
 
 void run_isolated(Case const &c)
@@ -338,6 +664,7 @@ void run_isolated(Case const &c)
   fflush(stdout);
   pid_t pid = fork();
   if(pid == 0) {
+    for(int sig : {SIGSEGV, SIGABRT, SIGALRM, SIGBUS, SIGFPE, SIGPIPE}) signal(sig, dump_on_signal);
     alarm(20);
     run_case(c);
     _exit(0);
